@@ -146,11 +146,17 @@ class C15(Prop):
             "several sites, factors drawn from Hermitian / real / complex-symmetric / real-symmetric / identity / diagonal / "
             "unitary / generic matrices (every labelling shortcut is taken), rational prefactors, symbolic rates, labels "
             "shared between the Hamiltonian and the jump dictionary, bare TensorProducts as jump operators, non-default "
-            "suffixes; caller histories (about 40% of the well-formed cases): the caller owns ONE ndarray per operator label "
+            "ket_suffix / bra_suffix values (12 pairs: short / capitalised, the EMPTY string on the ket or on the bra side "
+            "so that one copy keeps the plain site identifiers, suffixes that are prefixes / extensions of each other, the "
+            "defaults swapped; only pairs that keep the 2N doubled identifiers distinct); the caller's jump-operator objects "
+            "(the list, its tuples, the TensorProducts inside, the operator dictionary and the rate mapping) are compared "
+            "after all generations with a fresh construction from the case (a bare entry normalised in place to the "
+            "equivalent (1, '1', tp) is accepted), and in half of the cases the caller generates a second time from the "
+            "very same objects and that matrix is judged against the GKSL matrix too; caller histories (about 40% of the well-formed cases): the caller owns ONE ndarray per operator label "
             "and ONE dict per mapping, generates Lindbladians for 1..2 earlier sweep points, refills the same objects in place "
             "(contents of any class -> any class, rates changed) and generates again, with the same Hamiltonian object or a new "
             "one around the same buffers; every point of the history is judged by the dense oracle, the last one also by the "
-            "model tie; a further generation after the judged one must not change it; malformed stream: labels missing from a dictionary and ket/bra identifier collisions (both sides "
+            "model tie; a further generation after the judged one must not change it; malformed stream: labels missing from a dictionary, ket/bra identifier collisions and equal ket and bra suffixes (both empty / both the same string) with at least one jump operator (both sides "
             "must raise the same exception). dense construction: besides the all-tuple list [(sqrt gamma_k, L_k)] every well-formed case "
             "(and every history point) also hands exact_lindbladian the same operators and rates as a list in a random "
             "documented entry format per operator (tuple (c, L), (-c, L), split (c/a, a L), bare array c L / L itself when "
@@ -181,7 +187,9 @@ class C15(Prop):
         ("V", "the dense matrix of the generated terms (ket sites then bra sites, Kronecker order) equals the GKSL matrix of the "
               "property text; exact_lindbladian equals it too, for the all-tuple list and for a list in mixed documented entry "
               "formats (bare arrays and (coefficient, array) tuples) in a permuted order (all: differential oracle, numpy); also at every point of a "
-              "caller history with operator arrays / mappings refilled in place between the generations (the model is a "
+              "caller history with operator arrays / mappings refilled in place between the generations, for ket / bra "
+              "suffixes including the empty string, with the caller's jump-operator objects unchanged afterwards and a "
+              "second generation from the same objects giving the same matrix (the model is a "
               "function of the current contents only: state kept by the library between calls is outside the theorems)"),
     ]
     trusted_base = [
@@ -297,12 +305,12 @@ class C15(Prop):
             else:
                 fr = Fraction(rng.choice([1, 1, 2, 3, 5]), rng.choice([1, 2, 3, 4]))
                 jops.append({"bare": False, "frac": [fr.numerator, fr.denominator], "coeff": rng.choice(jcoeffs)[0], "tp": tp})
-        suffix = rng.choice([["_ket", "_bra"], ["_ket", "_bra"], ["_k", "_b"], ["K", "Bra"]])
+        suffix = self._gen_suffix(rng, [s for s, _ in sites])
         case = {"sites": sites, "hterms": hterms, "hconv": hconv, "hcoeffs": hcoeffs, "jops": jops, "jdict": jdict,
                 "jcoeffs": jcoeffs, "suffix": suffix, "hermitian": hermitian, "seed": rng.randrange(10 ** 6), "malformed": None,
                 "history": None, "large": bool(large), "dense": self._gen_dense(rng, len(jops))}
         if malformed:
-            kind = rng.choice(["hlabel", "jlabel", "collision"])
+            kind = rng.choice(["hlabel", "jlabel", "collision", "samesuffix"])
             if kind == "hlabel":
                 if not case["hterms"]:
                     case["hterms"].append([1, 1, "1", [[sites[0][0], "nolabel"]]])
@@ -313,6 +321,14 @@ class C15(Prop):
                     case["jops"].append({"bare": False, "frac": [1, 2], "coeff": jcoeffs[0][0], "tp": [[sites[0][0], "nolabel"]]})
                 else:
                     rng.choice(case["jops"])["tp"][-1][1] = "nolabel"
+            elif kind == "samesuffix":
+                # ket and bra copies get the same identifiers (both suffixes empty, or equal): every jump operator collides
+                s_ = rng.choice(["", "", "_ket", "_bra"])
+                case["suffix"] = [s_, s_]
+                if not case["jops"]:
+                    case["jops"].append({"bare": False, "frac": [1, 2], "coeff": jcoeffs[0][0],
+                                         "tp": [[sites[0][0], jby_dim[dims[0]][0]]]})
+                    case["dense"] = self._gen_dense(rng, 1)
             else:
                 # "a"+"bc" == "ab"+"c": the ket copy of one site is the bra copy of another
                 d0 = 2
@@ -326,6 +342,23 @@ class C15(Prop):
         elif rng.random() < 0.4:
             case["history"] = self._gen_history(rng, nprs, case)
         return case
+
+    SUFFIXES = [["_ket", "_bra"], ["_ket", "_bra"], ["_k", "_b"], ["K", "Bra"],
+                # the optional keywords at further values: one of the two copies keeps the plain site identifiers
+                # (empty suffix), suffixes that are prefixes / extensions of each other, a suffix equal to a default of the
+                # other side
+                ["", "_bra"], ["", "_bra"], ["_ket", ""], ["", "*"], ["'", ""], ["_ket", "_ket_bra"], ["_k_b", "_b"],
+                ["_bra", "_ket"]]
+
+    @staticmethod
+    def _gen_suffix(rng, names):
+        """a (ket_suffix, bra_suffix) pair for which the 2N doubled identifiers are pairwise distinct (what the caller has
+        to guarantee; a pair that makes two of them equal belongs to the malformed stream)"""
+        while True:
+            ks, bs = rng.choice(C15.SUFFIXES)
+            ids = [s + ks for s in names] + [s + bs for s in names]
+            if len(set(ids)) == len(ids):
+                return [ks, bs]
 
     DENSE_FORMATS = ["tuple", "negtuple", "split", "bare"]
 
@@ -443,6 +476,15 @@ class C15(Prop):
             c["jumps:%d" % len(x["jops"])] += 1
             c["hterms:%d" % len(x["hterms"])] += 1
             c["malformed:%s" % x["malformed"]] += 1
+            if not x["malformed"]:
+                ks, bs = x["suffix"]
+                c["suffixes: " + ("default" if [ks, bs] == ["_ket", "_bra"] else "ket_suffix empty" if ks == "" else
+                                  "bra_suffix empty" if bs == "" else "other non-default")] += 1
+                if ks == "" and x["jops"]:
+                    c["suffixes: ket_suffix empty with at least one jump operator"] += 1
+                if bs == "" and x["jops"]:
+                    c["suffixes: bra_suffix empty with at least one jump operator"] += 1
+                c["second generation from the same objects judged"] += bool(x.get("again", x["seed"] % 2 == 0))
             c["multi-site jump"] += any(len(j["tp"]) > 1 for j in x["jops"])
             for j in x["jops"]:
                 kinds = {l[0]: l[2] for l in x["jdict"]}
@@ -660,6 +702,16 @@ class C15(Prop):
         ob["conv"] = {k: np.asarray(v) for k, v in lind.conversion_dictionary.items()}
         ob["coeff_keys"] = list(lind.coeffs_mapping.keys())
         ob["coeffs"] = {k: complex(v) for k, v in lind.coeffs_mapping.items()}
+        # the caller's jump-operator objects (the list, its tuples, the TensorProducts inside, the two dictionaries) after
+        # all generations, against a fresh construction from the case description
+        ob["jump_inputs_changed"] = self._jump_inputs_changed(case, jops, call_jdict, call_jco, ref_jdict, ref_jco)
+        if case.get("again", case["seed"] % 2 == 0):
+            # the caller generates once more from the very same objects: the same superoperator has to come out
+            try:
+                lind2 = lb.generate_lindbladian(ham, jops, call_jdict, call_jco, ket_suffix=case["suffix"][0], bra_suffix=case["suffix"][1])
+                ob["L_gen_again"] = self._dense_of_terms(case, lind2)
+            except Exception as e:  # noqa
+                ob["again_exception"] = f"{type(e).__name__}: {str(e)[:200]}"
         ob["inputs_untouched"] = bool(list(ham.conversion_dictionary) == list(ref_hconv) and len(ham.terms) == len(case["hterms"])
                                       and list(ham.coeffs_mapping.items()) == list(ref_hco.items())
                                       and all(np.array_equal(ham.conversion_dictionary[k], ref_hconv[k]) for k in ref_hconv))
@@ -669,6 +721,31 @@ class C15(Prop):
             ob["dense_exception"] = f"{type(e).__name__}: {e}"
         self._dense_exact(case, ob)
         return ob
+
+    @staticmethod
+    def _jump_inputs_changed(case, jops, call_jdict, call_jco, ref_jdict, ref_jco):
+        """None if the objects the caller handed in as jump operators still say what the case says, else what differs"""
+        if not isinstance(jops, list) or len(jops) != len(case["jops"]):
+            return f"the list of jump operators now has {len(jops) if isinstance(jops, list) else type(jops).__name__} entries"
+        for k, (j, cur) in enumerate(zip(case["jops"], jops)):
+            want_tp = [tuple(x) for x in j["tp"]]
+            if j["bare"] and not isinstance(cur, tuple):
+                tp = cur
+            else:
+                # (a bare TensorProduct entry may have been normalised in place to the equivalent term (1, "1", tp): it still
+                # denotes the same jump operator with rate 1, judged like a term with frac 1 / coeff "1")
+                if not (isinstance(cur, tuple) and len(cur) == 3 and cur[0] == Fraction(*j["frac"]) and cur[1] == j["coeff"]):
+                    return f"jump operator {k}: prefactor / rate name now {cur[:2] if isinstance(cur, tuple) else cur!r}"
+                tp = cur[2]
+            if not isinstance(tp, TensorProduct) or list(tp.items()) != want_tp:
+                return (f"jump operator {k}: the caller's TensorProduct was {dict(want_tp)} and is now "
+                        f"{dict(tp) if isinstance(tp, TensorProduct) else tp!r}")
+        if list(call_jdict) != list(ref_jdict) or any(
+                np.shape(call_jdict[k]) != np.shape(ref_jdict[k]) or not np.array_equal(call_jdict[k], ref_jdict[k]) for k in ref_jdict):
+            return f"the caller's jump operator dictionary now has keys {list(call_jdict)} / other matrices"
+        if list(call_jco.items()) != list(ref_jco.items()):
+            return f"the caller's rate mapping is now {call_jco}"
+        return None
 
     @staticmethod
     def _dense_inputs(case):
@@ -878,18 +955,25 @@ class C15(Prop):
         if case["malformed"]:
             if "exception" not in ob:
                 return f"malformed input ({case['malformed']}) accepted"
-            want = "ValueError" if case["malformed"] == "collision" else "KeyError"
+            want = "ValueError" if case["malformed"] in ("collision", "samesuffix") else "KeyError"
             if ob["exception"] != want:
                 return f"malformed input ({case['malformed']}) raised {ob['exception']}, expected {want}"
             return None
         if "exception" in ob:
-            return f"generate_lindbladian raised {ob['exception']}: {ob['exception_msg']}"
+            return (f"generate_lindbladian(ket_suffix={case['suffix'][0]!r}, bra_suffix={case['suffix'][1]!r}) raised "
+                    f"{ob['exception']}: {ob['exception_msg']}")
         if "dense_exception" in ob:
             return f"the generated Lindbladian cannot be evaluated: {ob['dense_exception']}"
         if "exact_exception" in ob:
             return f"exact_lindbladian raised {ob['exact_exception']}"
         if not ob["inputs_untouched"]:
             return "generate_lindbladian modified the caller's Hamiltonian"
+        if ob.get("jump_inputs_changed"):
+            return (f"generate_lindbladian(ket_suffix={case['suffix'][0]!r}, bra_suffix={case['suffix'][1]!r}) modified the "
+                    f"caller's jump operators: {ob['jump_inputs_changed']}")
+        if "again_exception" in ob:
+            return (f"a second generation from the same Hamiltonian / jump operator objects (ket_suffix={case['suffix'][0]!r}, "
+                    f"bra_suffix={case['suffix'][1]!r}) raised {ob['again_exception']}")
         # every point of the caller's history is judged: the earlier sweep points (contents of that point), then this case
         points = [(f"history point {k} of {len(ob['prev'])} (before the in-place refill): ", self._point_case(case, pt), po)
                   for k, (pt, po) in enumerate(zip((case.get("history") or {}).get("points", []), ob.get("prev", [])))]
@@ -932,6 +1016,8 @@ class C15(Prop):
         keys = [("generate_lindbladian", "L_gen"), ("exact_lindbladian", "L_exact")]
         if "L_exact_fmt" in ob:
             keys.append((f"exact_lindbladian on the list {ob['fmt_desc']}", "L_exact_fmt"))
+        if "L_gen_again" in ob:
+            keys.append(("generate_lindbladian called a second time with the same objects", "L_gen_again"))
         for name, key in keys:
             m = ob[key]
             if close(m, gksl, scale):
